@@ -76,15 +76,13 @@ def chunks {α : Type} (n : Nat) : Nat → List α → List (List α)
   | f+1, l => l.take (max n 1) :: chunks n f (l.drop (max n 1))
 
 /-- statements issued by an operation, and whether it ended with an error. Writes of several
-chunks check a chunk, issue it, then go on to the next. -/
+chunks check every row of every chunk first and issue the chunks only when all comply. -/
 def exec (h : Handle) : Op → List Stmt × Bool
   | .query f => if check h f then ([.select f], false) else ([], true)
   | .insertRow r u => if check h r then ([.insert [r] u], false) else ([], true)
   | .insertRows rows n u =>
-      let rec go : List (List KVs) → List Stmt → List Stmt × Bool
-        | [], acc => (acc.reverse, false)
-        | c :: cs, acc => if c.all (check h) then go cs (.insert c u :: acc) else (acc.reverse, true)
-      go (chunks n rows.length rows) []
+      if (chunks n rows.length rows).all (fun c => c.all (check h))
+      then ((chunks n rows.length rows).map (fun c => .insert c u), false) else ([], true)
   | .updateRow pk rest => if check h (pk ++ rest) then ([.update rest pk], false) else ([], true)
   | .deleteRow pk => if check h pk then ([.delete pk], false) else ([], true)
 
